@@ -468,13 +468,86 @@ def run_reload_real(ctx, cases):
                    {"steps": [[list(f), list(s)] for f, s in steps], "observed": r})
 
 
+# ------------------------------------------------------------------ concurrent lanes
+CONC_FILES = {"zz_verif_driver_test.go": "c19/config_driver_test.go", "zz_verif_conc_test.go": "c19/conc_driver_test.go"}
+
+
+def conc_raws():
+    """configurations whose MIXTURES give decisions that none of them gives:
+       probe 1 is refused by all three (A: not allowlisted, B: blocklisted, C: not allowlisted) and probe 3 is accepted by
+       none, probe 5 is accepted by all; a flag/list mixture (allowlist flag of one, lists of another) breaks that"""
+    A = dict(default_raw(), workers=("V", 2), allow=[0, 5], block=[3], domains=[0], phantom=[0, 1], public="Z")
+    B = dict(default_raw(), workers=("V", 2), block=[1, 3, 4], domains=[1, 2], phantom=[2], public="Z")
+    C = dict(default_raw(), workers=("V", 2), allow=[2, 5], block=[0, 1], domains=[], phantom=[1, 3], public="Z")
+    return [A, B, C]
+
+
+def run_concurrent(ctx, race):
+    rng = ctx.rng
+    quick = ctx.tier == "quick"
+    tag = "conc-race" if race else "conc"
+    raws = conc_raws()
+    subs = [("ok", [1, 2]), ("ok", [3]), ("ok", [2, 4, 5])]
+    texts = [toml_of(r, rng) for r in raws]
+    subt = [sub_text(s)["text"] for s in subs]
+    flips = (1500 if race else 3000) if quick else (6000 if race else 40000)
+    cases = [{"cfgs": texts[:2], "subs": subt[:2], "flips": flips, "workers": 8, "nprobe": NPROBE},
+             {"cfgs": texts, "subs": subt, "flips": flips, "workers": 12, "nprobe": NPROBE}]
+    rc, out, res = ctx.go_inpkg(".", "pkg/station/lib", CONC_FILES, "^TestVerifC19ReloadReaders$", cases, race=race, timeout=900)
+    if "DATA RACE" in out:
+        ctx.fail("race:reload-vs-readers", "the race detector reports a data race between OnReload and policy readers",
+                 {"output": out[out.find("DATA RACE") - 100:][:1800]})
+    if res is None or len(res) != len(cases):
+        if "DATA RACE" not in out:
+            ctx.broken("driver", "reload-vs-readers driver produced no results: " + out[-900:])
+    else:
+        for c, r in zip(cases, res):
+            ctx.count((tag, "rr", len(c["cfgs"])), kind=tag + "/reload-readers")
+            info = {"configs": [{k: v for k, v in raw.items() if v not in ("U", None)} for raw in raws[:len(c["cfgs"])]], "flips": c["flips"],
+                    "workers": c["workers"], "observed": {k: r[k] for k in ("calls", "bad", "bad_first", "bad_gens", "procs", "panic", "error")}}
+            if r["error"] or r["panic"]:
+                ctx.fail("conc:reload-readers-panic", "reload-vs-readers lane failed: %s %s" % (r["error"], r["panic"]), info)
+                continue
+            # the sequential decisions of each configuration must be what the lists ask for (ties the tables to the records)
+            for raw, tab in zip(raws, r["tables"]):
+                cov, dom, ph = expected_decisions(raw)
+                if tab[:3 * NPROBE] != cov + dom + ph:
+                    ctx.fail("enforced:decision-differs", "decisions of a parsed configuration differ from its written lists (concurrent lane set-up)", info)
+            if r["bad"]:
+                ctx.fail("reload:mixed-policy-observed", "while the configuration was being reloaded %d of %d policy decisions equal neither the previous nor the "
+                         "new configuration's decision (first: %s; slots 0-5 covert, 6-11 domain, 12-17 phantom, 18 loopback)"
+                         % (r["bad"], r["calls"], r["bad_first"]), info)
+            if r["bad_gens"]:
+                ctx.fail("reload:mixed-subnets-observed", "%d reads of the phantom selector during reloads saw generations of no configuration in force" % r["bad_gens"], info)
+        ctx.cov[tag + "_reload_readers"] = [{k: r[k] for k in ("calls", "flips", "bad", "bad_gens", "procs")} for r in res]
+    # housekeeping vs ingest accounting, child process
+    base = dict(default_raw(), workers=("V", 2), dur_live=("V", 1), dur_non=("V", 2), block=[0], public="Z")
+    ms = (400 if race else 800) if quick else (2000 if race else 6000)
+    cases = [{"cfg": toml_of(base, rng), "sub": subt[0], "workers": 1, "millis": ms},
+             {"cfg": toml_of(dict(base, cap_live=("V", 3), dur_non="U"), rng), "sub": subt[0], "workers": 4, "millis": ms}]
+    rc, out, res = ctx.go_inpkg(".", "pkg/station/lib", CONC_FILES, "^TestVerifC19StatsIngest$", cases, race=race, timeout=900)
+    if res is None or len(res) != len(cases):
+        ctx.broken("driver", "stats-vs-ingest driver produced no results: " + out[-900:])
+        return
+    for c, r in zip(cases, res):
+        ctx.count((tag, "si", c["workers"]), kind=tag + "/stats-ingest")
+        if not r["clean"]:
+            kind = "race" if "DATA RACE" in r["first"] else "fatal" if r["first"].startswith("fatal error") else "panic" if r["first"] else "exit"
+            ctx.fail("conc:stats-vs-ingest/%s" % kind, "with %d ingest worker(s) accounting registrations the statistics printers brought the process down: %r "
+                     "(%s; printer on the reported stack: %s)" % (c["workers"], r["first"], r["exit_err"], r["in_printer"]),
+                     {"workers": c["workers"], "millis": c["millis"], "observed": r})
+        elif r["prints"] == 0 or r["accounts"] == 0:
+            ctx.broken("driver", "stats-vs-ingest child did no work: %s" % r)
+    ctx.cov[tag + "_stats_ingest"] = res
+
+
 def run(ctx):
     ctx.assumptions += [
         "TOML decoding (BurntSushi/toml) is represented by a record of optional keys; the driver writes real files from the same record",
         "net.ParseCIDR / regexp.Compile / time.ParseDuration are oracles: the generator knows which strings they accept (checked on every run by the outcome classes)",
         "GeoIP databases that open are not available in the sandbox: only absent, empty and non-openable paths are exercised",
         "the SIGHUP loop of cmd/application/main.go is cut textually out of main.go on every run and executed verbatim as a function (second driver); the start-up lines of main() are replicated in the drivers",
-        "concurrent readers during OnReload are outside this property's model (candidate #18, C09)",
+        "reader-side reload atomicity: the lock-protected sections are assumed atomic (ModelConc LTS); exercised by the concurrent lane, with -race in the thorough tier",
         "the Go in-package driver, the case generator and the JSON->Gallina emitter are trusted",
     ]
     ctx.cov["trusted_base"] = [
@@ -529,3 +602,7 @@ def run(ctx):
     ctx.cov["shipped_ok"] = shipped_ok
     run_reload_real(ctx, cases)
     ctx.require_kinds(["mainloop/reload/len1", "mainloop/reload/len23", "mainloop/reload/random"])
+    run_concurrent(ctx, race=False)
+    ctx.require_kinds(["conc/reload-readers", "conc/stats-ingest"])
+    if ctx.tier == "thorough":
+        run_concurrent(ctx, race=True)
